@@ -32,6 +32,7 @@ var Families = map[string]func(t *testing.T, seed int64, steps int) *Cluster{
 	"prevoteterm": famPreVoteTerm,
 	"dupis":       famDupIS,
 	"leaseiso":    famLeaseIso,
+	"staleprefix": famStalePrefix,
 }
 
 // famSnapMember: snapshots racing with membership changes and a slow FSM, then restarts from the snapshot.
